@@ -116,7 +116,15 @@ def _nessai():
             rec, popd = self.queue.pop(0)
             self.draws += 1
             self.populated = popd
-            return rec.copy()
+            out = rec.copy()
+            # a user proposal that writes its draw into the `old` it was handed (seeded change C01-hB)
+            try:
+                if isinstance(old, (np.ndarray, np.void)) and old.dtype == np.asarray(out).dtype:
+                    for nm in old.dtype.names:
+                        old[nm] = out[nm]
+            except (ValueError, TypeError):
+                pass
+            return out
 
     class Gauss(Model):
         """deliberately ASYMMETRIC: every parameter has its own, disjoint prior range and its own likelihood width, so that
@@ -717,6 +725,15 @@ class Recorder:
             def draw(self, *a, **k):
                 x = orig(self, *a, **k)
                 rec.draws.append((np.asarray(x).copy(), bool(self.populated), type(self).__name__))
+                # a user-defined proposal may write into the `old_sample` it is handed (it is documented as an input, and the
+                # sampler hands over a copy): the sampler's own record of the discarded point must not change with it
+                # (seeded change C01-hB dropped the copy)
+                if a and isinstance(a[0], (np.ndarray, np.void)) and a[0].dtype == np.asarray(x).dtype:
+                    try:
+                        for nm in a[0].dtype.names:
+                            a[0][nm] = x[nm]
+                    except (ValueError, TypeError):
+                        pass
                 return x
             cls.draw = draw
             rec.patched.append((cls, "draw", orig))
@@ -748,6 +765,17 @@ class Recorder:
             rec.draws = []
         NS.consume_sample = consume_sample
         self.patched.append((NS, "consume_sample", orig_consume))
+        # a user-defined flow proposal may reorder / rescale the training array it is handed IN PLACE: the live set must not
+        # change with it (seeded change C01-hA passed the live points themselves)
+        orig_fp_train = FlowProposal.train
+
+        def fp_train(self, x, *a, **k):
+            out = orig_fp_train(self, x, *a, **k)
+            if isinstance(x, np.ndarray) and x.size > 1:
+                x[...] = x[::-1].copy()
+            return out
+        FlowProposal.train = fp_train
+        self.patched.append((FlowProposal, "train", orig_fp_train))
         orig_train = NS.train_proposal
 
         def train_proposal(self, *a, **k):
